@@ -138,8 +138,7 @@ Lemma trim_incl incl l e : In e (trim incl l) -> In e l.
 Proof.
   unfold trim. destruct (Z.of_nat (List.length (host_steps l)) <? 2); [auto|].
   intro H. apply in_app_or in H. destruct H as [H|H].
-  - unfold kept_dev in H. apply in_flat_map in H. destruct H as [g [Hg H]].
-    apply in_map_iff in H. destruct H as [c [Hc _]]. subst. apply filter_In in Hg. tauto.
+  - unfold kept_dev in H. apply filter_In in H. destruct H as [H _]. apply filter_In in H. tauto.
   - unfold kept_host in H. apply filter_In in H. tauto.
 Qed.
 
